@@ -548,6 +548,10 @@ void carquet_column_reader_free(carquet_column_reader_t* reader) {
 
     free(reader->page_buffer);
     free(reader->page_data_for_values);
+    for (int32_t i = 0; i < reader->num_retired_pages; i++) {
+        free(reader->retired_pages[i]);
+    }
+    free(reader->retired_pages);
     free(reader->dictionary_data);
     free(reader->dictionary_offsets);
 
